@@ -936,7 +936,7 @@ func run(r *report.Run, shard, nshards int, replayFile string) {
 			os.Exit(2)
 		}
 	}
-	r.Rule = "per action type (SubmitLogicCall, UpdateValset, UploadSmartContract, UploadUserSmartContract, CompassHandover; each queued through the real path with elected gas estimate, fees, three signatures, public access data): the reference transaction; every single corruption of the menu (named leaves of the argument tree: selector, consensus valset id / validators / powers / order, every signature component and signature order, relayer, fees, fee payer, ids, deadlines, gas estimate, addresses, payload/bytecode flip-truncate-extend, forward calls, constructor arguments, trailing bytes; plus highest and lowest bit of every 32-byte word of the packed input) with receipt status 1 and 0; all unordered pairs of menu entries (thorough); every subset of the collected signatures (prefixes and non-prefixes of the COLLECTION order) for each of the 6 orders in which three validators can sign (default = valset order, reversed, rotated, ...), singles on every proper prefix of the default, reversed and rotated collection (consensus leaves in quick, all named leaves in thorough); receipt variants {1, 0, absent, undecodable, success without the deployment event}; transaction envelope alphabet {legacy, access-list, dynamic-fee, blob canonical, blob network form with sidecar} x receipt {1,0} per type; extreme numeric values reached through the real paths (all validators estimate 2^63-1 / 2^63 / 2^64-1 gas, governance fee rates 1.0/1.0, 1.9/0.5, 0.5/0.5 => gas_estimate word resp. fee words at and above 2^63) with the reference transaction and per numeric word +-1, sign-extended from 64 bits, truncated to 63 bits, bits 63 / 64 / 255 flipped (all named leaves in thorough); re-use sequences (same tx for the content-identical twin in the same / next block, twin first, evidence for an attested message) and the replay product: message attested with the transaction in envelope e1, the same reference input offered for the twin in envelope e2, all 25 pairs (9 for the contract creation), must be refused whenever the transaction hash is the same (e1 == e2, or the two encodings of the blob transaction); replay at a distance: the transaction that attested a message is offered 1 / 301 / 601 / 10 000 blocks later (world.Advance on the fork) for the twin that waited in the queue and for a twin re-published after the gap (same content cloned into the queue, estimated, signed and published again; its reference input is checked to be byte-identical) - refusal required at every distance. Each case = 3 real MsgAddEvidence txs + the application's end-block on a fork; distinct = distinct cases"
+	r.Rule = "per action type (SubmitLogicCall, UpdateValset, UploadSmartContract, UploadUserSmartContract, CompassHandover; each queued through the real path with elected gas estimate, fees, three signatures, public access data): the reference transaction; every single corruption of the menu (named leaves of the argument tree: selector, consensus valset id / validators / powers / order, every signature component and signature order, relayer, fees, fee payer, ids, deadlines, gas estimate, addresses, payload/bytecode flip-truncate-extend, forward calls, constructor arguments, trailing bytes; plus highest and lowest bit of every 32-byte word of the packed input) with receipt status 1 and 0; all unordered pairs of menu entries (thorough); every subset of the collected signatures (prefixes and non-prefixes of the COLLECTION order) for each of the 6 orders in which three validators can sign (default = valset order, reversed, rotated, ...), singles on every proper prefix of the default, reversed and rotated collection (consensus leaves in quick, all named leaves in thorough); receipt variants {1, 0, absent, undecodable, success without the deployment event}; transaction envelope alphabet {legacy, access-list, dynamic-fee, blob canonical, blob network form with sidecar} x receipt {1,0} per type; extreme numeric values reached through the real paths (all validators estimate 2^63-1 / 2^63 / 2^64-1 gas, governance fee rates 1.0/1.0, 1.9/0.5, 0.5/0.5 => gas_estimate word resp. fee words at and above 2^63) with the reference transaction and per numeric word +-1, sign-extended from 64 bits, truncated to 63 bits, bits 63 / 64 / 255 flipped (all named leaves in thorough); re-use sequences (same tx for the content-identical twin in the same / next block, twin first, evidence for an attested message) and the replay product: message attested with the transaction in envelope e1, the same reference input offered for the twin in envelope e2, all 25 pairs (9 for the contract creation), must be refused whenever the transaction hash is the same (e1 == e2, or the two encodings of the blob transaction); replay at a distance: the transaction that attested a message is offered 1 / 301 / 601 / 10 000 blocks later (world.Advance on the fork) for the twin that waited in the queue and for a twin re-published after the gap (same content cloned into the queue, estimated, signed and published again; its reference input is checked to be byte-identical) - refusal required at every distance; two deployments of the same user contract in flight on the same chain (requested at heights h and h+3, both messages estimated / signed / published): attested only-older, only-younger, older-then-younger, younger-then-older, both in one block - after each end-block the deployment records must equal the pre-state with exactly the attested message's own record (by creation height) ACTIVE at the address of that message's receipt. Each case = 3 real MsgAddEvidence txs + the application's end-block on a fork; distinct = distinct cases"
 	r.Assumptions = []string{
 		"accepted = the message left the queue and the end-block's attestation loop logged no error; for SubmitLogicCall this is the only success observable (the attester changes no store besides queue, processed-tx set and relay metrics), for the other types the store-level success effect (snapshot live on chain / deployment advanced / user deployment active / contract activated) is checked as well",
 		"weaker reading: on a refused proof the message may be removed (not verified, failed receipt) or stay queued (attester error); the processed-transaction mark and the relayer's metrix history record are counted as bookkeeping, not as success effects (the record carries success=true for every TxExecutedProof, measured in coverage.metrix_record_on_rejected)",
@@ -1005,6 +1005,12 @@ func run(r *report.Run, shard, nshards int, replayFile string) {
 			continue
 		}
 		e.runDistance(d.Kind, d.Dist, d.Fresh)
+	}
+	for i := range userPairPlans {
+		if i%nshards != (shard+2)%nshards {
+			continue
+		}
+		e.runUserPair(i)
 	}
 	if e.replay == "" {
 		e.liveness(shard, nshards)
